@@ -63,7 +63,7 @@ def words(s):
 UNIT_KW = ["module", "submodule", "subroutine", "function", "procedure", "program", "type", "interface", "enum", "block", "associate"]
 
 # ---- END statements -------------------------------------------------------------------------------------------------------
-END_UNIT = alt(*[kw(u) for u in UNIT_KW], seq(kw("block"), ws1, kw("data")))
+END_UNIT = alt(*[kw(u) for u in UNIT_KW], seq(kw("block"), ws0, kw("data")))      # `end block data`, `endblockdata`
 END_FORMS = alt(kw("end"),
                 seq(kw("end"), ws0, END_UNIT),                          # end subroutine / endsubroutine
                 seq(kw("end"), ws0, END_UNIT, ws1, NAME),               # end subroutine name / endsubroutine name
